@@ -20,7 +20,26 @@ PROPS = {
     ),
 }
 
-CLAIMED = list(PROPS)
+PROPS["C16"] = dict(
+    technique="static analysis: transitive effect summaries over the resolved call graph (execute / storage create / write / delete) with guard propagation; who-may-call",
+    text=(
+        "Decides that no public constructor, composer, plan() or visualize() entry point (every name in "
+        "cubed.__all__, cubed.array_api.__all__, linalg, random, and every public method/dunder of "
+        "CoreArray/Array/BlockView) can reach an executor entry or a storage create/write call, and that "
+        "the only call edges carrying such effects are the ones the property text allows, each under its "
+        "stated condition (store/to_zarr only under `compute`, indexing only for cubed-array keys). "
+        "An effect closure covers every path through every entry point at once; tests call a few dozen "
+        "functions under a raise-if-computes executor."
+    ),
+    note=(
+        "Call graph over-approximated by method name for unknown receivers; subscript expressions on "
+        "cubed arrays (x[key]) are not call edges (indexing may compute by the property's own allowance); "
+        "user callables and third-party code are opaque."
+    ),
+    design="DESIGN.md §4 C16",
+)
+
+CLAIMED = sorted(PROPS)
 
 NOT_APPLICABLE = {
     "C14": "all clauses are integer-arithmetic facts over an unbounded geometry domain (geomspace/floor/lcm rounding); no shape-of-code clause is a necessary condition; needs solver/proof/enumeration families (DESIGN.md §4 C14, §6)",
